@@ -860,8 +860,8 @@ impl Check for C20 {
     }
     fn total_cases(&self, tier: Tier) -> u64 {
         match tier {
-            Tier::Quick => 3000,
-            Tier::Thorough => 300_000,
+            Tier::Quick => 20000,
+            Tier::Thorough => 2_000_000,
         }
     }
     fn run_case(&self, ctx: &Ctx, idx: u64, out: &mut Outcome) {
